@@ -239,6 +239,10 @@ def _rebase(eng, rep, rule, fi, cfg, ci, a):
                 continue
             if cfg.path_avoiding(cn, m2, []) is None:
                 continue
+            st2 = d2["ast"]
+            if d2["kind"] == "stmt" and isinstance(st2, ast.Assign) and len(st2.targets) == 1 and isinstance(st2.targets[0], ast.Name) and st2.targets[0].id == v \
+                    and isinstance(st2.value, ast.BinOp) and isinstance(st2.value.op, ast.Sub) and ekey(st2.value.left) == v and ekey(st2.value.right) == a.id:
+                continue          # this *is* the re-basing (`v = v - shift`), written after the shift instead of before it
             for sub in ast.walk(d2["ast"]) if d2["kind"] in ("stmt", "cond") else []:
                 if isinstance(sub, ast.Name) and sub.id == v and isinstance(sub.ctx, ast.Load) and (v, n) in cfg.reaching_defs()[m2]:
                     used_after = True
@@ -662,6 +666,11 @@ def rule_rebased_locals_imply_a_shift(eng, rep, rule="C16-3b.a-local-re-based-by
                 if p is not None and len(p) > 1:
                     bad = p
                     break
+            if bad is not None and shifts:
+                # the shift may come first: `shift_base(S); v = v - S` with the same S (defined before both)
+                sdefs = set(defs)
+                if any(cfg.dominates(sh, me) and all(cfg.dominates(d, sh) for d in sdefs) for sh in shifts):
+                    bad = None
             if not shifts or bad is not None:
                 rep.bad(rule, site, "%s|rebased-without-a-shift|%s" % (fi.fid, tgt),
                         "`%s` is re-based by `%s` (the incumbent's relative position) but %s: the value is relative to a base point that did not move"
